@@ -135,3 +135,36 @@ Definition g_step (st : state) (o : op) : bool :=
   g_inv o && match o with OSubseq _ _ src _ => match getv st src with Some _ => true | None => false end | _ => true end.
 Definition live (st : state) (w : var) : option slice :=
   match getv st w with Some s => if s_len s =? 0 then None else Some s | None => None end.
+
+(* ================= mapping a list constructor over several lists: what the results must be =================
+   The n-th result is the constructor applied to the n-th elements, and the results are independent lists:
+   writing into one of them afterwards changes neither another result nor an argument. *)
+Inductive lastcol := LInts (l : list Z) | LLists (ll : list (list Z)).
+Definition last_len (c : lastcol) : nat := match c with LInts l => length l | LLists ll => length ll end.
+Definition rows_count (fc : list (list Z)) (last : lastcol) : nat :=
+  fold_left (fun m x => Nat.min m x) (map (@length Z) fc) (last_len last).
+(* list with list-valued elements would build nested lists: outside the modelled rows *)
+Definition map_supported (F : mfun) (fc : list (list Z)) (last : lastcol) : bool :=
+  match F, last with
+  | FList, LLists _ => false
+  | FList, _ => 1 <=? length fc
+  | FListStar, _ => 1 <=? length fc
+  | FCons, _ => length fc =? 1
+  end.
+Definition spec_row (F : mfun) (fc : list (list Z)) (last : lastcol) (n : nat) : list Z * bool :=
+  let fronts := map (fun c => nth n c 0%Z) fc in
+  match last with
+  | LInts l => (fronts ++ [nth n l 0%Z], match F with FList => false | _ => true end)
+  | LLists ll => (fronts ++ nth n ll [], false)
+  end.
+Definition spec_rows (F : mfun) (fc : list (list Z)) (last : lastcol) : list (list Z * bool) :=
+  map (spec_row F fc last) (seq 0 (rows_count fc last)).
+Definition spec_setcar (rows : list (list Z * bool)) (j : nat) (v : Z) : list (list Z * bool) :=
+  map (fun ir => if Nat.eqb (fst ir) j then (match fst (snd ir) with [] => [] | _ :: t => v :: t end, snd (snd ir)) else snd ir)
+      (combine (seq 0 (length rows)) rows).
+(* the model's input: the inner lists first, then the columns *)
+Definition mk_input (fc : list (list Z)) (last : lastcol) : oheap * list (list obj) :=
+  match last with
+  | LInts l => ([], map (map OInt) fc ++ [map OInt l])
+  | LLists ll => let '(h, os) := mk_inner [] ll in (h, map (map OInt) fc ++ [os])
+  end.
